@@ -453,7 +453,11 @@ pub fn run_main(dispatch: fn(&Job) -> Value) {
                 let job = Job::from_json(&v);
                 cur.store(job.idx, std::sync::atomic::Ordering::SeqCst);
                 beat.fetch_add(1, std::sync::atomic::Ordering::SeqCst);
-                let res = dispatch(&job);
+                // a panic anywhere in the code under test is data, never the end of the runner
+                let res = catch_unwind(AssertUnwindSafe(|| dispatch(&job))).unwrap_or_else(|p| {
+                    let msg = p.downcast_ref::<String>().cloned().or_else(|| p.downcast_ref::<&str>().map(|s| s.to_string())).unwrap_or_default();
+                    json!({"panic": msg})
+                });
                 cur.store(u64::MAX, std::sync::atomic::Ordering::SeqCst);
                 let mut o = out.lock();
                 let _ = writeln!(o, "{}", json!({"idx": job.idx, "obs": res}));
